@@ -243,8 +243,17 @@ def make(oid, op1, cross, tiers=("quick", "thorough")):
         return (z3.And(*cl) if cl else True), ""
 
     def replay(v):
+        """the model's node positions first; a history fault flagged symbolically needs a concrete witness, which may exist only where faces lie across the
+        antimeridian of a re-centred projection: the same positions rotated in longitude by multiples of 45 degrees are tried as well"""
+        lon0, lat0 = [float(x) for x in v["lon"]], [float(x) for x in v["lat"]]
+        for sh in (0, 90, 180, 270, 45, 135, 225, 315):
+            r = _replay_one(v, [((x + sh + 180.0) % 360.0) - 180.0 for x in lon0], lat0)
+            if r:
+                return r + (f" [node longitudes rotated by {sh} deg]" if sh else "")
+        return None
+
+    def _replay_one(v, lon, lat):
         import uxarray as ux
-        lon, lat = [float(x) for x in v["lon"]], [float(x) for x in v["lat"]]
         name2 = OBSERVE[v["op2"]]
         g = C.real_grid(ROWS, lon, lat)
         import copy
